@@ -945,6 +945,14 @@ func (s *sim) runStream(file bool) {
 		s.ctx.Tracef("PROBE %s %s: %s accepted; the stored file still loads as the original payload", s.cfg, what, desc)
 		return
 	}
+	if kind == 5 && s.ctx.Param("strict_stream", "0") != "1" {
+		// whole blocks exchanged: not a single-bit flip, burst or truncation of the
+		// stream, i.e. outside the quantifier of C14 (nothing in the v2 format
+		// checks block order); recorded, not reported
+		s.ctx.Count("probe.stream_block_exchange_accepted", 1)
+		s.ctx.Tracef("PROBE %s %s: %s accepted by the validator (outside the stated fault model)", s.cfg, what, desc)
+		return
+	}
 	s.ctx.Violate(Prop, "validator-accepts-corrupt", "%s %s: %s accepted by the validator; loading the stored file: outcome=%s %s, %d bytes, original %d, first difference %d (harmless=%t)",
 		s.cfg, what, desc, res.Outcome, res.Why, len(res.Data), len(payload), firstDiff(res.Data, payload), harmless)
 }
